@@ -370,6 +370,16 @@ func (t *LoggingTransport) Connect(ctx context.Context) (Connection, error) {
 	return &loggingConn{delegate: delegate, w: t.Writer}, nil
 }
 
+// SupportsProtocolVersion implements [ProtocolVersionSupporter] by asking the
+// wrapped transport, so that logging a transport does not make it appear to
+// serve protocol versions it cannot.
+func (t *LoggingTransport) SupportsProtocolVersion(version string) bool {
+	if pvs, ok := t.Transport.(ProtocolVersionSupporter); ok {
+		return pvs.SupportsProtocolVersion(version)
+	}
+	return true
+}
+
 type loggingConn struct {
 	delegate Connection
 
